@@ -22,6 +22,51 @@ let () =
          bump (Printf.sprintf "len%d" (List.length kinds));
          List.iter bump kinds
        done
+   | "iters" ->
+       let c = { Views.maxrank = geti "--maxrank" 4; maxops = geti "--maxops" 4; rebased = has "--rebased"; maxd = 6 } in
+       let maxsteps = geti "--maxsteps" 12 in
+       for k = 1 to count do
+         let tail id v prog obs =
+           let pr b s = Buffer.add_string b s; Buffer.add_char b '\n' in
+           let kinds = ref [] in
+           let one kind size run =
+             let steps, ks = Iters.gen_walk size (Zu.rnd_range 1 maxsteps) in
+             pr prog ("it " ^ kind);
+             List.iter (fun s -> pr prog (Iters.step_text s)) steps;
+             run id v steps obs;
+             kinds := ("walk_" ^ kind) :: ks @ !kinds in
+           one "a" (Zu.i (Model.v_size v)) Iters.run_walk_a;
+           (* flat iteration over a view with a non-empty leading dimension and a zero inner extent is a separate
+              finding (division by zero, DESIGN 7 item 20): generated only with --zero-inner *)
+           let nel = Zu.i (Model.er_size v) and lead = Zu.i (Model.v_size v) in
+           if nel > 0 || lead = 0 || has "--zero-inner" then one "e" nel Iters.run_walk_e;
+           !kinds in
+         let kinds = Views.gen_case ~with_probes:false ~tail c (Printf.sprintf "%s%d" (get "--prefix" "i" args) k) prog obs in
+         bump (Printf.sprintf "ops%d" (List.length (List.filter (fun s -> String.length s < 2 || String.sub s 0 2 <> "w_") kinds)));
+         List.iter bump kinds
+       done
+   | "iters-run" ->
+       let ic = open_in (get "--prog" "prog.txt" args) in
+       let n = in_channel_length ic in
+       let text = really_input_string ic n in
+       close_in ic;
+       let extra id v lines obs =
+         (* lines: ["it"; k] starts a walk, ["w"; ...] are its steps *)
+         let flush kind steps =
+           match kind with
+           | Some "a" -> Iters.run_walk_a id v (List.rev steps) obs
+           | Some "e" -> Iters.run_walk_e id v (List.rev steps) obs
+           | _ -> () in
+         let kind = ref None and steps = ref [] in
+         List.iter
+           (function
+             | [ "it"; k ] -> flush !kind !steps; kind := Some k; steps := []
+             | "w" :: toks -> steps := Iters.parse_step toks :: !steps
+             | _ -> ())
+           lines;
+         flush !kind !steps in
+       Views.run_text ~extra text obs;
+       Buffer.add_string prog text
    | "views-run" ->
        let ic = open_in (get "--prog" "prog.txt" args) in
        let n = in_channel_length ic in
@@ -30,7 +75,7 @@ let () =
        Views.run_text text obs;
        Buffer.add_string prog text
    | _ -> usage ());
-  if cmd <> "views-run" then write (get "--prog" "prog.txt" args) prog;
+  if cmd <> "views-run" && cmd <> "iters-run" then write (get "--prog" "prog.txt" args) prog;
   write (get "--obs" "obs.txt" args) obs;
   (* distribution of what was generated, for the evidence file *)
   let items = Hashtbl.fold (fun k v acc -> (k, v) :: acc) hist [] in
